@@ -17,7 +17,7 @@ def _sub(sp, a, b):
     return a - b
 
 
-def fd_errors(f, sp_ran, x, d, Dd, hs=HS, Dfun=None, floor=0.0):
+def fd_errors(f, sp_ran, x, d, Dd, hs=HS, Dfun=None, floor=0.0, tiny=1e-12):
     """Relative errors of (f(x+hd) - f(x-hd))/(2h) against Dd for each h.
 
     The rounding noise of the difference quotient, ~ eps * |f(x)| / h, is subtracted from the discrepancy, so
@@ -36,7 +36,7 @@ def fd_errors(f, sp_ran, x, d, Dd, hs=HS, Dfun=None, floor=0.0):
             fp, fm = f(x + h * d), f(x - h * d)
             fd = (fp - fm) / (2 * h)
         noise = 64 * eps * max(fx, _norm(sp_ran, fp), _norm(sp_ran, fm)) / h
-        sc = max(1e-12, _norm(sp_ran, Dd), _norm(sp_ran, fd))
+        sc = max(tiny, _norm(sp_ran, Dd), _norm(sp_ran, fd))
         diff = max(0.0, _norm(sp_ran, _sub(sp_ran, fd, Dd)) - noise - floor)
         e = diff / sc
         errs.append(e if np.isfinite(e) else float('inf'))
@@ -72,7 +72,7 @@ def fd_errors(f, sp_ran, x, d, Dd, hs=HS, Dfun=None, floor=0.0):
                 except Exception:
                     pass
                 noise = noise + noise_d + floor
-            sc = max(1e-12, _norm(sp_ran, Dd), _norm(sp_ran, fd))
+            sc = max(tiny, _norm(sp_ran, Dd), _norm(sp_ran, fd))
             diff = max(0.0, _norm(sp_ran, _sub(sp_ran, fd, Dd)) - noise)
             e = diff / sc
             errs.append(e if np.isfinite(e) else float('inf'))
